@@ -232,25 +232,35 @@ theorem pushGuard_grown {s : Server} {g : Flight} {p : List ChangeReq} {doc dw :
 /-- when `pullPackResp` accepts, for a request that keeps the document attached -/
 theorem pullPackResp_accepts {s : Server} {f : Flight} (hst : f.status = .attached) :
     (∃ r, pullPackResp s f = .ok r) ↔
-      (f.pushOnly = true ∨ (epochDiffers f.info f.doc f.docInfo.epoch = false ∧ f.pack.cp.serverSeq ≤ f.initialSeq)) := by
+      ((s.cfg.stalePushOnlyRefused = true → epochDiffers f.info f.doc f.docInfo.epoch = false) ∧
+       (f.pushOnly = true ∨ (epochDiffers f.info f.doc f.docInfo.epoch = false ∧ f.pack.cp.serverSeq ≤ f.initialSeq))) := by
   unfold pullPackResp preparePackCore
-  cases hpo : f.pushOnly with
-  | true => simp
+  cases hsw : (s.cfg.stalePushOnlyRefused && epochDiffers f.info f.doc f.docInfo.epoch) with
+  | true =>
+    simp only [Bool.and_eq_true] at hsw
+    simp [hsw.1, hsw.2, hst]
   | false =>
-    simp only [Bool.false_eq_true, if_false, false_or]
-    cases he : epochDiffers f.info f.doc f.docInfo.epoch with
-    | true => simp [hst]
+    have h0 : s.cfg.stalePushOnlyRefused = true → epochDiffers f.info f.doc f.docInfo.epoch = false := by
+      intro h; rw [h] at hsw; simpa using hsw
+    simp only [Bool.false_eq_true, if_false]
+    rw [and_iff_right h0]
+    cases hpo : f.pushOnly with
+    | true => simp
     | false =>
-      simp only [Bool.false_eq_true, if_false, true_and]
-      by_cases hlt : f.initialSeq < f.pack.cp.serverSeq
-      · simp [hlt, hst]
-      · simp only [hlt, if_false]
-        constructor
-        · intro _; omega
-        · intro _
-          by_cases hth : f.initialSeq - f.pack.cp.serverSeq < s.cfg.snapshotThreshold
-          · exact ⟨{ cp := (pullChangeInfos s f).1, changes := (pullChangeInfos s f).2 }, by simp [hth]⟩
-          · exact ⟨{ cp := f.cpAfterPush.nextServerSeq f.docInfo.serverSeq, snapshot := true }, by simp [hth]⟩
+      simp only [Bool.false_eq_true, if_false, false_or]
+      cases he : epochDiffers f.info f.doc f.docInfo.epoch with
+      | true => simp [hst]
+      | false =>
+        simp only [Bool.false_eq_true, if_false, true_and]
+        by_cases hlt : f.initialSeq < f.pack.cp.serverSeq
+        · simp [hlt, hst]
+        · simp only [hlt, if_false]
+          constructor
+          · intro _; omega
+          · intro _
+            by_cases hth : f.initialSeq - f.pack.cp.serverSeq < s.cfg.snapshotThreshold
+            · exact ⟨{ cp := (pullChangeInfos s f).1, changes := (pullChangeInfos s f).2 }, by simp [hth]⟩
+            · exact ⟨{ cp := f.cpAfterPush.nextServerSeq f.docInfo.serverSeq, snapshot := true }, by simp [hth]⟩
 
 /-! ### when a sync is accepted (forward direction) -/
 
@@ -335,9 +345,10 @@ theorem pushPull_window_retry {s s' : Server} {f f' : Flight} (h : pushPull s f 
       ((s.setDoc f.doc { pushedDoc doc (stripped f) p with vvRows := v }).setDoc f.doc
         (pushedDoc { pushedDoc doc (stripped f) p with vvRows := v } (stripped f) p2))
       (pushedFlight { pushedDoc doc (stripped f) p with vvRows := v } (stripped f) p2) = .ok r2 := by
-    have h1 := (pullPackResp_accepts (s := s.setDoc f.doc (pushedDoc doc (stripped f) p))
+    obtain ⟨h0, h1⟩ := (pullPackResp_accepts (s := s.setDoc f.doc (pushedDoc doc (stripped f) p))
       (f := pushedFlight doc (stripped f) p) (by simpa [pushedFlight] using hst)).mp ⟨r, hpull⟩
-    refine (pullPackResp_accepts (by simpa [pushedFlight] using hst)).mpr ?_
+    refine (pullPackResp_accepts (by simpa [pushedFlight] using hst)).mpr ⟨?_, ?_⟩
+    · intro hsw; exact h0 hsw
     rcases h1 with h1 | ⟨h1, h2⟩
     · exact Or.inl (by simpa [pushedFlight] using h1)
     · refine Or.inr ⟨by simpa [pushedFlight] using h1, ?_⟩
@@ -371,17 +382,19 @@ theorem pullPackResp_cp {s : Server} {f : Flight} {r : Resp} (h : pullPackResp s
     injection h with h; subst h
     unfold preparePackCore at hr
     split at hr
-    · next hpo => injection hr with hr; subst hr; simp [hpo]
-    · next hpo =>
-      split at hr
-      · simp at hr
-      · split at hr
+    · simp at hr
+    · split at hr
+      · next hpo => injection hr with hr; subst hr; simp [hpo]
+      · next hpo =>
+        split at hr
         · simp at hr
         · split at hr
-          · injection hr with hr; subst hr
-            simp [pullChangeInfos, nextServerSeq_clientSeq, nextServerSeq_serverSeq, hpo]
-          · injection hr with hr; subst hr
-            simp [nextServerSeq_clientSeq, nextServerSeq_serverSeq, hpo]
+          · simp at hr
+          · split at hr
+            · injection hr with hr; subst hr
+              simp [pullChangeInfos, nextServerSeq_clientSeq, nextServerSeq_serverSeq, hpo]
+            · injection hr with hr; subst hr
+              simp [nextServerSeq_clientSeq, nextServerSeq_serverSeq, hpo]
   · split at h
     · next hc => rw [hst] at hc; simp at hc
     · simp at h
@@ -524,9 +537,18 @@ theorem pushPull_idempotent {s s' : Server} {f f' : Flight} (h : pushPull s f = 
   have hpull2 : ∃ r2, pullPackResp
       (s'.setDoc f.doc (pushedDoc { pushedDoc doc (stripped f) p with vvRows := vv } (stripped { f with info := info1 }) []))
       (pushedFlight { pushedDoc doc (stripped f) p with vvRows := vv } (stripped { f with info := info1 }) []) = .ok r2 := by
-    have h1 := (pullPackResp_accepts (s := s.setDoc f.doc (pushedDoc doc (stripped f) p))
+    obtain ⟨h0, h1⟩ := (pullPackResp_accepts (s := s.setDoc f.doc (pushedDoc doc (stripped f) p))
       (f := pushedFlight doc (stripped f) p) (by simpa [pushedFlight] using hst)).mp ⟨r, hpull⟩
-    refine (pullPackResp_accepts (by simpa [pushedFlight, hstripped] using hst)).mpr ?_
+    refine (pullPackResp_accepts (by simpa [pushedFlight, hstripped] using hst)).mpr ⟨?_, ?_⟩
+    · intro hsw
+      have hsw' : (s.setDoc f.doc (pushedDoc doc (stripped f) p)).cfg.stalePushOnlyRefused = true := by
+        show s.cfg.stalePushOnlyRefused = true
+        rw [← hcfg]; exact hsw
+      have h0' := h0 hsw'
+      rw [hstripped]
+      simp only [pushedFlight, stripped_doc, stripped_info, pushedDoc_epoch] at h0' ⊢
+      simp only [epochDiffers, hI1, hE4]
+      simpa [epochDiffers, hcd0] using h0'
     rw [hstripped]
     rcases h1 with h1 | ⟨h1, h2⟩
     · exact Or.inl (by simpa [pushedFlight] using h1)
